@@ -70,7 +70,9 @@ def gen_world(seed, classes=ALL_CLASSES, want_constraints=0.3, node_p=0.25, tag=
     if dag:
         g = gen.dag_bowtie(rng, float_w=float_w) if (flow_decomp and rng.random() < 0.4) else gen.dag_layered(rng, max_nodes=6, max_edges=8, float_w=float_w)
     else:
-        g = gen.digraph_cyclic(rng, max_nodes=5, max_edges=6, max_routes=2, wmax=4, float_w=float_w)
+        g = gen.digraph_cyclic(rng, max_nodes=5, max_edges=6, max_routes=2, wmax=3, float_w=float_w)
+        while len(g["routes"]) > 3 or len(g["edges"]) > 7:
+            g = gen.digraph_cyclic(rng, max_nodes=5, max_edges=6, max_routes=2, wmax=3, float_w=float_w, flower_p=0.0)
     if g.get("routes") is None:
         # bow-tie graphs carry no generating routes: derive some by peeling for constraints
         g = dict(g)
@@ -110,10 +112,17 @@ def gen_world(seed, classes=ALL_CLASSES, want_constraints=0.3, node_p=0.25, tag=
     nroutes = len(g["routes"]) if g.get("routes") else 3
     if base.startswith("k") or inner:
         k = max(1, nroutes + rng.choice([0, 0, 0, 1, 1, -1]))
+        if not dag:
+            # cyclic MILPs grow quickly with k; keep every solve far below the real-time cap
+            k = min(k, 2 if base in ("kMinPathErrorCycles", "kLeastAbsErrorsCycles") else 3)
         if not inner:
             args["k"] = k
     # constraints
     cons_key = "subpath_constraints" if dag else "subset_constraints"
+    zero = [[u, v] for u, v, f in graph["edges"] if f == 0]
+    if zero and not dag:
+        g = dict(g)
+        g["zero_flow_edges"] = zero + [e for e in g.get("zero_flow_edges", []) if e not in zero]
     if g.get("routes") and rng.random() < want_constraints:
         if node_mode:
             cons = []
@@ -128,6 +137,34 @@ def gen_world(seed, classes=ALL_CLASSES, want_constraints=0.3, node_p=0.25, tag=
         if cons:
             args[cons_key] = cons
             cov = rng.choice([1, 1, 0.75, 0.5])
+            crossed = False
+            if not node_mode and rng.random() < 0.6:
+                # "crossing" constraints: append an edge that leaves the generating route, so that no
+                # route contains the whole constraint and only a fraction of it can be covered
+                succs = {}
+                for u_, v_, _ in graph["edges"]:
+                    succs.setdefault(u_, []).append(v_)
+                newc = []
+                for c in cons:
+                    last = c[-1][1]
+                    alt = [y for y in succs.get(last, []) if [last, y] not in c]
+                    onroute = set()
+                    for r_ in g["routes"]:
+                        onroute.update(zip(r_[:-1], r_[1:]))
+                    # an edge out of the last node that does not continue any route through the constraint's last edge
+                    alt = [y for y in alt if not any(tuple(c[-1]) in list(zip(r_[:-1], r_[1:])) and (last, y) in list(zip(r_[:-1], r_[1:])) for r_ in g["routes"])]
+                    if alt and (dag or True):
+                        newc.append(c + [[last, rng.choice(alt)]])
+                        crossed = True
+                    else:
+                        newc.append(c)
+                if crossed:
+                    cons = newc
+                    args[cons_key] = cons
+                    longest = max(len(c) for c in cons)
+                    shortest = min(len(c) for c in cons)
+                    # a fraction that the generating route still reaches for every constraint
+                    cov = 0.5 if shortest <= 3 else rng.choice([0.5, 0.75])
             if cov != 1:
                 args[cons_key + "_coverage"] = cov
             elif dag and not node_mode and rng.random() < length_cov_p:
@@ -136,6 +173,19 @@ def gen_world(seed, classes=ALL_CLASSES, want_constraints=0.3, node_p=0.25, tag=
                 args["length_attr"] = "len"
                 graph = dict(graph)
                 graph["edge_lengths"] = [[u, v, rng.randint(1, 4)] for u, v, _ in graph["edges"] if rng.random() < 0.8]
+            if crossed and dag and cov != 1 and rng.random() < 0.5:
+                # the same, expressed as a length fraction: the crossing edge is short, the route part long
+                args.pop(cons_key + "_coverage", None)
+                graph = dict(graph)
+                lens = {}
+                for c in cons:
+                    for e in c[:-1]:
+                        lens[tuple(e)] = rng.randint(3, 9)
+                    lens.setdefault(tuple(c[-1]), 1)
+                graph["edge_lengths"] = [[u, v, lens.get((u, v), rng.randint(1, 3))] for u, v, _ in graph["edges"]]
+                worst = min(sum(lens[tuple(e)] for e in c[:-1]) / float(sum(lens[tuple(e)] for e in c)) for c in cons)
+                args["subpath_constraints_coverage_length"] = max(0.05, int(worst * 100 - 1) / 100.0)
+                args["length_attr"] = "len"
     # ignored elements
     if rng.random() < 0.2:
         if node_mode:
